@@ -245,7 +245,9 @@ for _p, _l in {"C05": _ACC + _CASTS, "C11": _WHOLE, "C18": _CASTS, "C07": ["get_
 
 for _p, _l in _K_TIE.items():
     TIE[_p] = TIE[_p] + [x for x in _l if x not in TIE[_p]]
-TIE_SOURCES.update({"value_array_length_agrees": ["src/value.rs::Value::array_length"],
+TIE_SOURCES.update({"build_array_agrees": ["src/functions.rs::build_array", "src/functions.rs::build_array_into"],
+                    "build_object_agrees": ["src/functions.rs::build_object", "src/functions.rs::build_object_into"],
+                    "value_array_length_agrees": ["src/value.rs::Value::array_length"],
                     "array_length_whole_text": ["src/functions.rs::array_length", "src/value.rs::Value::array_length"]})
 
 
@@ -407,7 +409,7 @@ PROPS = {
     "C17": {
         "panic_is_violation": True,
         "proved": 'UNCONDITIONAL frame theorems — every input (valid or not), every prior buffer — for every buffer-writing function: concat, delete_by_name / index / keypath, array_insert, object_insert / delete / pick, strip_nulls, array_distinct / intersection / except, build_array, build_object, convert_to_comparable (incl. its text branch), path selection in every mode incl. predicate paths with offsets as positions in that same buffer (C17_select); Encoder (reserve and patch) frame for good values; a documented error carries no buffer',
-        "missing": 'nothing known: the encoder frame holds for EVERY value, also outside the field widths (C17_write_to_vec_any / _total); the offsets reported by path selection are positions in the caller buffer (C17_select); the clause `nothing is appended when the call fails` is outside the model (its functions return no buffer on error): it is decided on the real code by the err / err-dirty / err-prefix-clobbered answers of the streams, with known finding D24 for build_array / build_object',
+        "missing": 'nothing known: the encoder frame holds for EVERY value, also outside the field widths (C17_write_to_vec_any / _total); the offsets reported by path selection are positions in the caller buffer (C17_select); the clause `nothing is appended when the call fails` is outside the model (its functions return no buffer on error): it is decided on the real code by the err / err-dirty / err-prefix-clobbered answers of the streams (defect D24 of build_array / build_object found this way and repaired in /repo)',
         "assumptions": [],
     },
     "C11": {
